@@ -1,14 +1,496 @@
+(* C06 — proofs, part 1: list/arith toolkit, the ring invariant (DESIGN.md A.2)
+   with a ghost live set, and its preservation by every operation of the
+   repaired code (fx = true). *)
 From MV Require Import C06.Model.
+From Coq Require Import Permutation.
 Local Open Scope Z_scope.
 
-Lemma ensure_space_fail_unchanged : forall fx mo s n s',
-  ensure_space fx mo s n = (s', false) -> s' = s.
+(* ---------- arithmetic ---------- *)
+Lemma mod_wrap : forall x c, 0 < c -> 0 <= x < 2 * c ->
+  x mod c = if x <? c then x else x - c.
 Proof.
-  intros fx mo s n s'. unfold ensure_space.
-  destruct (n <=? capacity s); [congruence|].
-  destruct (negb (Z.land (flag s) 1 =? 0)); [congruence|].
-  destruct (negb (mo 0%nat _)); [congruence|].
-  destruct (negb (mo 1%nat _)); [congruence|].
-  destruct (negb (mo 2%nat _)); [congruence|].
-  destruct (relink _ _). congruence.
+  intros x c Hc Hx. destruct (Z.ltb_spec x c).
+  - apply Z.mod_small; lia.
+  - symmetry. apply Z.mod_unique with (q := 1); lia.
+Qed.
+
+Lemma mod_add_inj : forall a i j c, 0 < c -> 0 <= a < c -> 0 <= i < c -> 0 <= j < c ->
+  (a + i) mod c = (a + j) mod c -> i = j.
+Proof.
+  intros a i j c Hc Ha Hi Hj. rewrite !mod_wrap by lia.
+  destruct (Z.ltb_spec (a + i) c), (Z.ltb_spec (a + j) c); lia.
+Qed.
+
+Lemma wrap_inc : forall a c, 0 < c -> 0 <= a < c ->
+  (if a + 1 =? c then 0 else a + 1) = (a + 1) mod c.
+Proof.
+  intros a c Hc Ha. rewrite mod_wrap by lia.
+  destruct (Z.eqb_spec (a + 1) c), (Z.ltb_spec (a + 1) c); lia.
+Qed.
+
+Lemma two32_val : two32 = 4294967296. Proof. reflexivity. Qed.
+Lemma two64_val : two64 = 18446744073709551616. Proof. reflexivity. Qed.
+
+Lemma mulsz_small : forall a b, 0 <= a < two32 -> 0 <= b < two32 -> mulsz true a b = a * b.
+Proof.
+  intros a b Ha Hb. unfold mulsz. apply Z.mod_small. rewrite two32_val in *. rewrite two64_val.
+  split; [apply Z.mul_nonneg_nonneg; lia|].
+  assert (a * b <= 4294967295 * 4294967295) by (apply Z.mul_le_mono_nonneg; lia). lia.
+Qed.
+
+(* ---------- zseq ---------- *)
+Lemma zseq_from_eq : forall k start, zseq_from start k = map (fun i => start + Z.of_nat i) (seq 0 k).
+Proof.
+  induction k; intros start; [reflexivity|]. cbn [zseq_from]. rewrite <- cons_seq. cbn [map].
+  rewrite Z.add_0_r. f_equal. rewrite IHk, <- seq_shift, map_map. apply map_ext. intros. lia.
+Qed.
+Lemma zseq_eq : forall n, zseq n = map Z.of_nat (seq 0 (Z.to_nat n)).
+Proof. intros. unfold zseq. rewrite zseq_from_eq. apply map_ext. intros. lia. Qed.
+Lemma zseq_nil : forall n, n <= 0 -> zseq n = [].
+Proof. intros n H. rewrite zseq_eq. replace (Z.to_nat n) with 0%nat by lia. reflexivity. Qed.
+
+Lemma in_zseq : forall n j, In j (zseq n) <-> 0 <= j < n.
+Proof.
+  intros n j. rewrite zseq_eq. rewrite in_map_iff. split.
+  - intros (k & <- & H). apply in_seq in H. lia.
+  - intros H. exists (Z.to_nat j). split; [lia|]. apply in_seq. lia.
+Qed.
+
+Lemma zlen_zseq : forall n, 0 <= n -> zlen (zseq n) = n.
+Proof. intros n H. unfold zlen. rewrite zseq_eq, map_length, seq_length. lia. Qed.
+
+Lemma seq_add_map : forall n m, seq n m = map (Nat.add n) (seq 0 m).
+Proof.
+  induction n; intros m.
+  - cbn. rewrite map_id. reflexivity.
+  - rewrite <- seq_shift, IHn, map_map. reflexivity.
+Qed.
+
+Lemma zseq_app : forall n m, 0 <= n -> 0 <= m -> zseq (n + m) = zseq n ++ map (Z.add n) (zseq m).
+Proof.
+  intros n m Hn Hm. rewrite !zseq_eq. rewrite Z2Nat.inj_add by lia. rewrite seq_app, map_app. f_equal.
+  rewrite map_map. cbn [Nat.add]. rewrite seq_add_map, map_map. apply map_ext. intros. lia.
+Qed.
+
+Lemma zseq_S : forall n, 0 < n -> zseq n = 0 :: map (Z.add 1) (zseq (n - 1)).
+Proof.
+  intros n H. replace n with (1 + (n - 1)) at 1 by lia. rewrite zseq_app by lia. reflexivity.
+Qed.
+
+Lemma zseq_snoc : forall n, 0 <= n -> zseq (n + 1) = zseq n ++ [n].
+Proof.
+  intros n H. rewrite zseq_app by lia. replace (zseq 1) with [0] by reflexivity.
+  cbn [map]. rewrite Z.add_0_r. reflexivity.
+Qed.
+
+Lemma NoDup_zseq : forall n, NoDup (zseq n).
+Proof.
+  intros n. rewrite zseq_eq. apply FinFun.Injective_map_NoDup.
+  - intros x y. apply Nat2Z.inj.
+  - apply seq_NoDup.
+Qed.
+
+(* ---------- znth / zupd / zslice ---------- *)
+Lemma zlen_app : forall A (l1 l2 : list A), zlen (l1 ++ l2) = zlen l1 + zlen l2.
+Proof. intros. unfold zlen. rewrite app_length. lia. Qed.
+Lemma zlen_nonneg : forall A (l : list A), 0 <= zlen l.
+Proof. intros. unfold zlen. lia. Qed.
+Lemma zlen_map : forall A B (f : A -> B) l, zlen (map f l) = zlen l.
+Proof. intros. unfold zlen. rewrite map_length. reflexivity. Qed.
+
+Lemma upd_nth_length : forall l i x, length (upd_nth i x l) = length l.
+Proof. induction l; destruct i; cbn; intros; auto. Qed.
+Lemma nth_upd_nth_same : forall l i x d, (i < length l)%nat -> nth i (upd_nth i x l) d = x.
+Proof. induction l; destruct i; cbn; intros; try lia; auto. apply IHl. lia. Qed.
+Lemma nth_upd_nth_other : forall l i j x d, i <> j -> nth i (upd_nth j x l) d = nth i l d.
+Proof. induction l; destruct i, j; cbn; intros; try lia; auto. Qed.
+
+Lemma zlen_zupd : forall i x l, zlen (zupd i x l) = zlen l.
+Proof. intros. unfold zlen, zupd. rewrite upd_nth_length. reflexivity. Qed.
+Lemma znth_zupd_same : forall i x l, 0 <= i < zlen l -> znth i (zupd i x l) = x.
+Proof. intros. unfold znth, zupd, zlen in *. apply nth_upd_nth_same. lia. Qed.
+Lemma znth_zupd_other : forall i j x l, 0 <= i -> 0 <= j -> i <> j -> znth i (zupd j x l) = znth i l.
+Proof. intros. unfold znth, zupd. apply nth_upd_nth_other. lia. Qed.
+
+Lemma znth_app_r : forall l1 l2 u j, zlen l1 = u -> 0 <= j -> znth (u + j) (l1 ++ l2) = znth j l2.
+Proof.
+  intros l1 l2 u j Hu Hj. unfold znth, zlen in *. rewrite app_nth2 by lia. f_equal. lia.
+Qed.
+
+Lemma map_nth_seq : forall (l : list blk) d, map (fun j => nth j l d) (seq 0 (length l)) = l.
+Proof.
+  induction l; intros d; [reflexivity|]. cbn [length]. rewrite <- cons_seq. cbn [map nth]. f_equal.
+  rewrite <- seq_shift, map_map. apply IHl.
+Qed.
+
+Lemma map_znth_zseq : forall l, map (fun j => znth j l) (zseq (zlen l)) = l.
+Proof.
+  intros l. rewrite zseq_eq. unfold zlen, znth. rewrite Nat2Z.id, map_map.
+  rewrite <- (map_nth_seq l dflt) at 2. apply map_ext. intros. rewrite Nat2Z.id. reflexivity.
+Qed.
+
+Lemma slice_map_nat : forall n st (l : list blk) d, (st + n <= length l)%nat ->
+  firstn n (skipn st l) = map (fun j => nth (st + j) l d) (seq 0 n).
+Proof.
+  induction n; intros st l d H; [reflexivity|].
+  assert (Hs : skipn st l = nth st l d :: skipn (S st) l).
+  { clear IHn. revert st H. induction l; intros st H; cbn in H; [lia|].
+    destruct st; [reflexivity|]. cbn. apply IHl. lia. }
+  rewrite Hs. cbn [firstn]. rewrite (IHn (S st) l d) by lia.
+  rewrite <- cons_seq. cbn [map]. rewrite Nat.add_0_r. f_equal.
+  rewrite <- seq_shift, map_map. apply map_ext. intros. f_equal. lia.
+Qed.
+
+Lemma zslice_map : forall st n l, 0 <= st -> 0 <= n -> st + n <= zlen l ->
+  zslice st n l = map (fun j => znth (st + j) l) (zseq n).
+Proof.
+  intros st n l Hs Hn H. rewrite zseq_eq. unfold zslice, znth, zlen in *.
+  rewrite (slice_map_nat _ _ _ dflt) by lia. rewrite map_map. apply map_ext. intros. f_equal. lia.
+Qed.
+
+Lemma zslice_0 : forall st l, zslice st 0 l = [].
+Proof. reflexivity. Qed.
+
+Lemma zlen_zslice : forall st n l, 0 <= st -> 0 <= n -> st + n <= zlen l -> zlen (zslice st n l) = n.
+Proof. intros. rewrite zslice_map by lia. rewrite zlen_map, zlen_zseq; lia. Qed.
+
+
+(* ---------- the invariant (DESIGN.md Appendix A.2) ---------- *)
+(* the F = capacity - used ring entries at (alloc_index + j) mod capacity, j < F *)
+Definition free_part (s : pool) : list blk :=
+  map (fun j => znth ((alloc_index s + j) mod capacity s) (ring s)) (zseq (capacity s - used s)).
+
+(* all blocks of all slabs; slab k holds the blocks (k, i * block_size), i < count *)
+Fixpoint all_from (bs k : Z) (sl : list (Z * Z)) : list blk :=
+  match sl with
+  | [] => []
+  | x :: r => new_blocks true k bs (snd x) ++ all_from bs (k + 1) r
+  end.
+Definition all_blocks (s : pool) : list blk := all_from (block_size s) 0 (slabs s).
+
+Definition slab_ok (bs : Z) (x : Z * Z) : Prop := 0 < snd x < two32 /\ fst x = bs * snd x.
+
+Record Inv (s : pool) (live : list blk) : Prop := {
+  i_bs : 0 < block_size s < two32;
+  i_cap : 0 < capacity s < two32;
+  i_len : zlen (ring s) = capacity s;
+  i_a : 0 <= alloc_index s < capacity s;
+  i_used : 0 <= used s <= capacity s;
+  i_f : free_index s = (alloc_index s + (capacity s - used s)) mod capacity s;
+  i_live : used s = zlen live;
+  i_slabs : Forall (slab_ok (block_size s)) (slabs s);
+  i_perm : Permutation (free_part s ++ live) (all_blocks s) }.
+
+Lemma free_part_len : forall s, 0 <= used s <= capacity s -> zlen (free_part s) = capacity s - used s.
+Proof. intros. unfold free_part. rewrite zlen_map, zlen_zseq; lia. Qed.
+
+(* ---------- take (the tail of alloc) ---------- *)
+Lemma take_spec : forall s live, Inv s live -> used s < capacity s ->
+  exists b, take s = (fst (take s), Some b) /\
+    free_part s = b :: free_part (fst (take s)) /\
+    Inv (fst (take s)) (live ++ [b]).
+Proof.
+  intros s live I Hu. destruct I.
+  set (b := znth (alloc_index s) (ring s)). exists b.
+  assert (Hfp : free_part s = b :: free_part (fst (take s))).
+  { unfold free_part at 1. rewrite zseq_S by lia. cbn [map].
+    rewrite Z.add_0_r, Z.mod_small by lia. fold b. f_equal.
+    unfold free_part, take. cbn [fst ring alloc_index capacity used].
+    rewrite map_map. replace (capacity s - (used s + 1)) with (capacity s - used s - 1) by lia.
+    apply map_ext. intros j. f_equal.
+    rewrite wrap_inc by lia. rewrite Z.add_mod_idemp_l by lia. f_equal. lia. }
+  split; [reflexivity|]. split; [exact Hfp|].
+  constructor; unfold take; cbn [fst ring alloc_index free_index capacity used block_size slabs flag max_delta_cap]; auto.
+  - rewrite wrap_inc by lia. apply Z.mod_pos_bound. lia.
+  - lia.
+  - rewrite wrap_inc by lia. rewrite Z.add_mod_idemp_l by lia. rewrite i_f0. f_equal. lia.
+  - rewrite zlen_app. unfold zlen at 2. cbn. lia.
+  - fold (take s). unfold all_blocks in *. 
+    change (block_size s) with (block_size (fst (take s))) in i_perm0.
+    eapply Permutation_trans; [|exact i_perm0]. rewrite Hfp.
+    rewrite app_assoc. eapply Permutation_trans; [apply Permutation_app_comm|]. cbn. apply perm_skip.
+    reflexivity.
+Qed.
+
+(* ---------- free ---------- *)
+Lemma remove_nth_perm : forall (l : list blk) k b, nth_error l k = Some b ->
+  Permutation l (b :: remove_nth k l) /\ zlen (remove_nth k l) = zlen l - 1.
+Proof.
+  induction l; intros k b H; destruct k; cbn in H; try discriminate.
+  - inversion H; subst. split; [reflexivity|]. unfold zlen; cbn [length remove_nth]. lia.
+  - destruct (IHl _ _ H) as [P L]. split.
+    + cbn [remove_nth]. eapply Permutation_trans; [apply perm_skip, P|]. apply perm_swap.
+    + unfold zlen in *. cbn [length remove_nth]. lia.
+Qed.
+
+Lemma free_spec : forall s live k b, Inv s live -> nth_error live k = Some b ->
+  free_part (free s b) = free_part s ++ [b] /\ Inv (free s b) (remove_nth k live).
+Proof.
+  intros s live k b I Hk. destruct (remove_nth_perm _ _ _ Hk) as [HP HL]. destruct I.
+  assert (Hlive : 0 < zlen live).
+  { destruct live; [destruct k; discriminate|]. unfold zlen. cbn. lia. }
+  set (F := capacity s - used s).
+  assert (HF : 0 <= F < capacity s) by (unfold F; lia).
+  assert (Hfi : 0 <= free_index s < capacity s) by (rewrite i_f0; apply Z.mod_pos_bound; lia).
+  assert (Hfp : free_part (free s b) = free_part s ++ [b]).
+  { unfold free_part, free. cbn [ring alloc_index capacity used].
+    replace (capacity s - (used s - 1)) with (F + 1) by (unfold F; lia).
+    rewrite zseq_snoc, map_app by lia. cbn [map]. f_equal.
+    - apply map_ext_in. intros j Hj. apply in_zseq in Hj. fold F in Hj.
+      apply znth_zupd_other; try (apply Z.mod_pos_bound; lia); try lia.
+      rewrite i_f0. fold F. intro E. apply mod_add_inj in E; lia.
+    - f_equal. rewrite i_f0. fold F. apply znth_zupd_same. rewrite i_len0. apply Z.mod_pos_bound. lia. }
+  split; [exact Hfp|].
+  constructor; unfold free; cbn [ring alloc_index free_index capacity used block_size slabs flag max_delta_cap]; auto.
+  - rewrite zlen_zupd. assumption.
+  - lia.
+  - rewrite wrap_inc by lia. rewrite i_f0. rewrite Z.add_mod_idemp_l by lia. f_equal. lia.
+  - lia.
+  - fold (free s b). unfold all_blocks in *. change (block_size s) with (block_size (free s b)) in i_perm0.
+    eapply Permutation_trans; [|exact i_perm0]. rewrite Hfp. rewrite <- app_assoc. apply Permutation_app_head.
+    cbn. symmetry. exact HP.
+Qed.
+
+(* ---------- ensure_space: the re-linearisation ---------- *)
+Definition sl (p : Z * Z) (r : list blk) : list blk := zslice (fst p) (snd p) r.
+
+Lemma relink_nf : forall x r,
+  0 <= snd (fs2 x) -> 0 <= snd (as1 x) -> 0 <= snd (as2 x) -> (snd (as1 x) = 0 -> snd (as2 x) = 0) ->
+  relink x r = (sl (fs1 x) r ++ sl (fs2 x) r ++ sl (as1 x) r ++ sl (as2 x) r, snd (fs1 x) + snd (fs2 x)).
+Proof.
+  intros x r H2 H3 H4 H34. unfold relink, sl.
+  destruct (Z.ltb_spec 0 (snd (fs2 x))) as [L2|L2].
+  - destruct (Z.ltb_spec 0 (snd (as1 x))) as [L3|L3].
+    + destruct (Z.ltb_spec 0 (snd (as2 x))) as [L4|L4].
+      * rewrite <- !app_assoc. reflexivity.
+      * replace (snd (as2 x)) with 0 by lia. rewrite zslice_0, app_nil_r, <- !app_assoc. reflexivity.
+    + replace (snd (as1 x)) with 0 by lia. replace (snd (as2 x)) with 0 by lia.
+      rewrite !zslice_0, !app_nil_r. reflexivity.
+  - replace (snd (fs2 x)) with 0 by lia. rewrite zslice_0, Z.add_0_r. cbn [app].
+    destruct (Z.ltb_spec 0 (snd (as1 x))) as [L3|L3].
+    + destruct (Z.ltb_spec 0 (snd (as2 x))) as [L4|L4].
+      * rewrite <- !app_assoc. reflexivity.
+      * replace (snd (as2 x)) with 0 by lia. rewrite zslice_0, app_nil_r. reflexivity.
+    + replace (snd (as1 x)) with 0 by lia. replace (snd (as2 x)) with 0 by lia.
+      rewrite !zslice_0, !app_nil_r. reflexivity.
+Qed.
+
+Lemma relink_spec : forall s live, Inv s live ->
+  exists junk, relink (choose_sects true s) (ring s) = (junk ++ free_part s, used s) /\ zlen junk = used s.
+Proof.
+  intros s live I. destruct I.
+  set (a := alloc_index s) in *. set (f := free_index s) in *. set (c := capacity s) in *.
+  set (r := ring s) in *. set (u := used s) in *.
+  assert (Hf : f = if a + (c - u) <? c then a + (c - u) else a + (c - u) - c).
+  { rewrite i_f0. apply mod_wrap; lia. }
+  assert (Hfb : 0 <= f < c) by (rewrite i_f0; apply Z.mod_pos_bound; lia).
+  unfold choose_sects. fold a f c u.
+  destruct (Z.eqb_spec u c) as [Huc|Huc].
+  - (* every block handed out *)
+    assert (f = a) by (destruct (Z.ltb_spec (a + (c - u)) c); lia).
+    rewrite relink_nf; cbn [fs1 fs2 as1 as2 fst snd]; try lia.
+    exists (zslice f (c - f) r ++ zslice 0 f r). unfold sl; cbn [fst snd]. split.
+    + unfold free_part. fold u c. rewrite (zseq_nil (c - u)) by lia. cbn [map].
+      rewrite !zslice_0, !app_nil_r. f_equal. lia.
+    + rewrite zlen_app, !zlen_zslice by (fold r c in i_len0; lia). lia.
+  - destruct (Z.leb_spec f a) as [Hfa|Hfa].
+    + (* f <= a : available part wraps (or is the whole ring) *)
+      assert (HF : c - u = (c - a) + f) by (destruct (Z.ltb_spec (a + (c - u)) c); lia).
+      rewrite relink_nf; cbn [fs1 fs2 as1 as2 fst snd]; try lia.
+      exists (zslice f (a - f) r). unfold sl; cbn [fst snd]. split.
+      * rewrite zslice_0. cbn [app]. f_equal; [|lia]. f_equal.
+        unfold free_part. fold a c u r. rewrite HF, zseq_app, map_app by lia. f_equal.
+        -- rewrite zslice_map by (fold r c in i_len0; lia). apply map_ext_in. intros j Hj.
+           apply in_zseq in Hj. rewrite Z.mod_small by lia. reflexivity.
+        -- rewrite zslice_map by (fold r c in i_len0; lia). rewrite map_map. apply map_ext_in. intros j Hj.
+           apply in_zseq in Hj. rewrite mod_wrap by lia.
+           destruct (Z.ltb_spec (a + (c - a + j)) c); [lia|]. f_equal. lia.
+      * rewrite zlen_zslice by (fold r c in i_len0; lia). lia.
+    + (* a < f : available part is contiguous *)
+      assert (HF : c - u = f - a) by (destruct (Z.ltb_spec (a + (c - u)) c); lia).
+      rewrite relink_nf; cbn [fs1 fs2 as1 as2 fst snd]; try lia.
+      exists (zslice f (c - f) r ++ zslice 0 a r). unfold sl; cbn [fst snd]. split.
+      * rewrite zslice_0, app_nil_r, <- app_assoc. f_equal; [|lia]. do 2 f_equal.
+        unfold free_part. fold a c u r. rewrite HF.
+        rewrite zslice_map by (fold r c in i_len0; lia). apply map_ext_in. intros j Hj.
+        apply in_zseq in Hj. rewrite Z.mod_small by lia. reflexivity.
+      * rewrite zlen_app, !zlen_zslice by (fold r c in i_len0; lia). lia.
+Qed.
+
+Lemma all_from_app : forall bs ss k x,
+  all_from bs k (ss ++ [x]) = all_from bs k ss ++ new_blocks true (k + zlen ss) bs (snd x).
+Proof.
+  intros bs ss. induction ss; intros k x; cbn [all_from app].
+  - rewrite app_nil_r. unfold zlen; cbn [length]. rewrite Z.add_0_r. reflexivity.
+  - rewrite IHss, <- app_assoc. do 3 f_equal. unfold zlen; cbn [length]. lia.
+Qed.
+
+Lemma zlen_new_blocks : forall fx k bs n, 0 <= n -> zlen (new_blocks fx k bs n) = n.
+Proof. intros. unfold new_blocks. rewrite zlen_map, zlen_zseq; lia. Qed.
+
+Definition grown_ok (s s' : pool) (n : Z) : Prop :=
+  capacity s < n /\ Z.land (flag s) 1 = 0 /\ capacity s' = n /\ used s' = used s /\
+  block_size s' = block_size s /\ flag s' = flag s /\ max_delta_cap s' = max_delta_cap s /\
+  slabs s' = slabs s ++ [(block_size s * (n - capacity s), n - capacity s)] /\
+  free_part s' = free_part s ++ new_blocks true (zlen (slabs s)) (block_size s) (n - capacity s).
+
+Lemma ensure_space_spec : forall mo s live n, Inv s live -> 0 <= n < two32 ->
+  (ensure_space true mo s n = (s, true) /\ n <= capacity s) \/
+  (ensure_space true mo s n = (s, false) /\ capacity s < n) \/
+  (exists s', ensure_space true mo s n = (s', true) /\ grown_ok s s' n /\ Inv s' live).
+Proof.
+  intros mo s live n I Hn. unfold ensure_space.
+  destruct (Z.leb_spec n (capacity s)) as [Hle|Hlt]; [left; auto|right].
+  destruct (Z.eqb_spec (Z.land (flag s) 1) 0) as [Hfl|Hfl]; cbn [negb]; [|left; auto].
+  destruct (mo 0%nat _); cbn [negb]; [|left; auto].
+  destruct (mo 1%nat _); cbn [negb]; [|left; auto].
+  destruct (mo 2%nat _); cbn [negb]; [|left; auto].
+  right. destruct (relink_spec _ _ I) as (junk & E & L). rewrite E.
+  eexists. split; [reflexivity|].
+  pose proof I as I0. destruct I.
+  set (d := n - capacity s). assert (Hd : 0 < d < two32) by (unfold d; lia).
+  rewrite (mulsz_small (block_size s) d) by lia.
+  set (nb := new_blocks true (zlen (slabs s)) (block_size s) d).
+  assert (Hnb : zlen nb = d) by (apply zlen_new_blocks; lia).
+  assert (Hfl0 : zlen (free_part s) = capacity s - used s) by (apply free_part_len; lia).
+  match goal with |- grown_ok s ?S n /\ _ => set (s' := S) end.
+  assert (Hfp : free_part s' = free_part s ++ nb).
+  { unfold free_part at 1. unfold s'. cbn [ring alloc_index capacity used].
+    rewrite <- app_assoc. set (rest := free_part s ++ nb).
+    replace (n - used s) with (zlen rest) by (unfold rest; rewrite zlen_app; lia).
+    rewrite <- (map_znth_zseq rest) at 2. apply map_ext_in. intros j Hj. apply in_zseq in Hj.
+    assert (zlen rest = n - used s) by (unfold rest; rewrite zlen_app; lia).
+    rewrite Z.mod_small by lia. apply znth_app_r; lia. }
+  split.
+  - unfold grown_ok. unfold s' at 1 2 3 4 5 6. cbn [capacity used block_size flag max_delta_cap slabs].
+    repeat split; auto.
+  - constructor; try (unfold s'; cbn [ring alloc_index free_index capacity used block_size slabs flag max_delta_cap]; auto; fail).
+    + unfold s'; cbn [capacity]. lia.
+    + unfold s'; cbn [ring capacity]. rewrite !zlen_app. fold nb. lia.
+    + unfold s'; cbn [alloc_index capacity]. lia.
+    + unfold s'; cbn [used capacity]. lia.
+    + unfold s'; cbn [alloc_index free_index used capacity].
+      replace (used s + (n - used s)) with n by lia. rewrite Z_mod_same_full. reflexivity.
+    + unfold s'; cbn [slabs block_size]. apply Forall_app. split; [assumption|].
+      constructor; [|constructor]. unfold slab_ok; cbn [fst snd]. split; [lia|reflexivity].
+    + rewrite Hfp. unfold all_blocks, s'; cbn [slabs block_size].
+      rewrite all_from_app. cbn [snd]. rewrite Z.add_0_l. fold nb.
+      eapply Permutation_trans with ((free_part s ++ live) ++ nb).
+      * rewrite <- !app_assoc. apply Permutation_app_head. apply Permutation_app_comm.
+      * apply Permutation_app_tail. exact i_perm0.
+Qed.
+
+(* ---------- alloc ---------- *)
+Definition delta_of (s : pool) : Z :=
+  if (0 <? max_delta_cap s) && (max_delta_cap s <? capacity s) then max_delta_cap s else capacity s.
+
+Lemma delta_of_bounds : forall s, 0 < capacity s ->
+  0 < delta_of s <= capacity s /\ (0 < max_delta_cap s -> delta_of s <= max_delta_cap s).
+Proof.
+  intros s Hc. unfold delta_of.
+  destruct (Z.ltb_spec 0 (max_delta_cap s)), (Z.ltb_spec (max_delta_cap s) (capacity s)); cbn [andb]; lia.
+Qed.
+
+Lemma alloc_spec : forall mo s live, Inv s live ->
+  (alloc true mo s = (s, None) /\ used s = capacity s) \/
+  (exists s1 b,
+     Inv s1 live /\
+     ((s1 = s /\ used s < capacity s) \/
+      (used s = capacity s /\ capacity s + delta_of s < two32 /\ grown_ok s s1 (capacity s + delta_of s))) /\
+     alloc true mo s = (fst (take s1), Some b) /\
+     free_part s1 = b :: free_part (fst (take s1)) /\
+     Inv (fst (take s1)) (live ++ [b])).
+Proof.
+  intros mo s live I. pose proof I as I0. destruct I. unfold alloc.
+  destruct (Z.eqb_spec (used s) (capacity s)) as [Hfull|Hnf].
+  - fold (delta_of s). destruct (delta_of_bounds s) as [Hd _]; [lia|].
+    assert (Hm : (capacity s + delta_of s) mod two32 =
+                 if capacity s + delta_of s <? two32 then capacity s + delta_of s
+                 else capacity s + delta_of s - two32) by (apply mod_wrap; lia).
+    cbn [andb]. destruct (Z.leb_spec ((capacity s + delta_of s) mod two32) (capacity s)) as [Hw|Hw];
+      [left; auto|].
+    destruct (Z.ltb_spec (capacity s + delta_of s) two32) as [Hlt|Hge]; [|lia].
+    rewrite Hm in *.
+    destruct (ensure_space_spec mo s live (capacity s + delta_of s) I0) as [[E Hle]|[[E Hlt']|(s' & E & G & I')]];
+      try lia; rewrite E.
+    + left; auto.
+    + right. destruct G as (G1 & G2 & G3 & G4 & G').
+      destruct (take_spec s' live I') as (b & T & Hfp & I''); [lia|].
+      exists s', b. split; [exact I'|]. split.
+      * right. split; [assumption|]. split; [lia|]. unfold grown_ok. tauto.
+      * split; [rewrite T; reflexivity|]. split; assumption.
+  - right. destruct (take_spec s live I0) as (b & T & Hfp & I''); [lia|].
+    exists s, b. split; [exact I0|]. split; [left; split; [reflexivity|lia]|].
+    split; [rewrite T; reflexivity|]. split; assumption.
+Qed.
+
+(* ---------- init, setters, histories ---------- *)
+Definition uint32 (z : Z) : Prop := 0 <= z < two32.
+Definition eff_cap (c : Z) : Z := if c =? 0 then 8 else c.
+
+Lemma init_spec : forall mo c bs s, uint32 c -> uint32 bs -> init true mo c bs = Some s ->
+  Inv s [] /\ capacity s = eff_cap c /\ used s = 0 /\ flag s = 0 /\ block_size s = bs /\ 0 < bs /\
+  slabs s = [(bs * eff_cap c, eff_cap c)] /\ free_part s = new_blocks true 0 bs (eff_cap c) /\
+  max_delta_cap s = (if 8 * 1024 <? bs then eff_cap c else default_max_delta).
+Proof.
+  intros mo c bs s Hc Hb. unfold init. fold (eff_cap c).
+  assert (He : 0 < eff_cap c < two32).
+  { unfold eff_cap, uint32 in *. rewrite two32_val in *. destruct (Z.eqb_spec c 0); lia. }
+  destruct (Z.eqb_spec bs 0) as [|Hb0]; [discriminate|].
+  destruct (mo 0%nat _); cbn [negb]; [|discriminate].
+  destruct (mo 1%nat _); cbn [negb]; [|discriminate].
+  destruct (mo 2%nat _); cbn [negb]; [|discriminate].
+  intros E. injection E as <-. unfold uint32 in *.
+  pose proof (mulsz_small bs (eff_cap c)) as M. unfold mulsz in M. rewrite M by lia. clear M.
+  match goal with |- Inv ?S _ /\ _ => set (s := S) end.
+  assert (Hl : zlen (ring s) = eff_cap c) by (unfold s; cbn [ring]; apply zlen_new_blocks; lia).
+  assert (Hfp : free_part s = new_blocks true 0 bs (eff_cap c)).
+  { unfold free_part.
+    replace (alloc_index s) with 0 by reflexivity. replace (capacity s) with (eff_cap c) by reflexivity.
+    replace (used s) with 0 by reflexivity.
+    rewrite Z.sub_0_r. transitivity (ring s); [|reflexivity].
+    etransitivity; [|apply map_znth_zseq]. rewrite Hl.
+    apply map_ext_in. intros j Hj. apply in_zseq in Hj. rewrite Z.add_0_l, Z.mod_small by lia. reflexivity. }
+  split; [|unfold s; cbn [capacity used flag block_size slabs max_delta_cap]; repeat split; auto; lia].
+  constructor; try (unfold s; cbn [ring alloc_index free_index capacity used block_size slabs]; auto; lia).
+  - unfold s; cbn [alloc_index free_index capacity used]. rewrite Z.sub_0_r, Z.add_0_l, Z_mod_same_full. reflexivity.
+  - unfold s; cbn [slabs block_size]. constructor; [|constructor]. unfold slab_ok; cbn [fst snd]. split; [lia|reflexivity].
+  - rewrite Hfp, app_nil_r. unfold all_blocks, s; cbn [slabs block_size all_from snd]. rewrite app_nil_r. reflexivity.
+Qed.
+
+Lemma set_flag_inv : forall s live v, Inv s live -> Inv (set_flag s v) live.
+Proof. intros s live v I. destruct I. constructor; auto. Qed.
+Lemma set_max_inv : forall s live v, Inv s live -> Inv (set_max_delta_cap s v) live.
+Proof. intros s live v I. destruct I. constructor; auto. Qed.
+
+Definition op_ok (o : op) : Prop :=
+  match o with OEnsure _ n => uint32 n | _ => True end.
+
+Lemma step_inv : forall s live o, Inv s live -> op_ok o ->
+  Inv (fst (step true (s, live) o)) (snd (step true (s, live) o)).
+Proof.
+  intros s live o I Ho. destruct o as [mo|k|mo n|v|v]; cbn [step].
+  - destruct (alloc_spec mo s live I) as [[E _]|(s1 & b & _ & _ & E & _ & I')]; rewrite E; cbn [fst snd]; auto.
+  - destruct (nth_error live k) as [b|] eqn:Hk; cbn [fst snd]; auto.
+    apply (free_spec s live k b I Hk).
+  - cbn [fst snd]. cbn in Ho.
+    destruct (ensure_space_spec mo s live n I Ho) as [[E _]|[[E _]|(s' & E & _ & I')]]; rewrite E; auto.
+  - cbn [fst snd]. apply set_flag_inv; auto.
+  - cbn [fst snd]. apply set_max_inv; auto.
+Qed.
+
+Lemma run_inv : forall ops s live, Inv s live -> Forall op_ok ops ->
+  Inv (fst (run true (s, live) ops)) (snd (run true (s, live) ops)).
+Proof.
+  induction ops as [|o ops IH]; intros s live I H; [exact I|].
+  inversion H; subst. unfold run in *. cbn [fold_left].
+  destruct (step true (s, live) o) as [s1 l1] eqn:E.
+  apply IH; auto. pose proof (step_inv s live o I H2) as I1. rewrite E in I1. exact I1.
+Qed.
+
+Lemma inv_reachable : forall mo c bs s0 ops, uint32 c -> uint32 bs ->
+  init true mo c bs = Some s0 -> Forall op_ok ops ->
+  Inv (fst (run true (s0, []) ops)) (snd (run true (s0, []) ops)).
+Proof.
+  intros mo c bs s0 ops Hc Hb E H. apply run_inv; auto. apply (init_spec mo c bs s0 Hc Hb E).
 Qed.
